@@ -181,6 +181,9 @@ def run(prop, tier):
                          "grid_rows_proved_this_run": len(rows) - len(failed), "grid_amax_ms": amax})
     if viol:
         res.add_violation(viol["what"], viol)
+    elif not tie["ok"] and not mism and not failed:
+        res.tie_undischarged("translation tie broken: " + tie["detail"][:700] + " -- the bit-exact correspondence agrees everywhere and the exact integer oracle found no failing input",
+                             {"no_longer_checks": "TieDur.v / TieSplit.v", "tie_detail": tie["detail"]})
     elif mism or failed or not tie["ok"]:
         what = []
         if not tie["ok"]:
